@@ -10,7 +10,7 @@ callsub").
 """
 import itertools
 
-MAIN_TERMS = ["fall", "b", "bz", "bnz", "callsub", "return", "err"]
+MAIN_TERMS = ["fall", "b", "bz", "bnz", "callsub", "return", "err", "retsub"]   # retsub outside a subroutine: accepted by the assembler, fails when executed
 SUB_TERMS = ["fall", "b", "bz", "bnz", "retsub", "return", "err"]
 FREE = "txn Amount"
 
